@@ -90,6 +90,28 @@ def drift_lines(res):
     return [int(x) for x in m[-1].split(",") if x.strip()]
 
 
+CONS = ("c1", "c2")
+
+
+def fired(prev, r, c):
+    return r["ev"] == "month" and r["ok"] and any(e <= r["t"] for e in prev["cs"][c]["mt"])
+
+
+def month_kind(prev, r, c):
+    ps, ns = prev["cs"][c]["subn"], r["cs"][c]["subn"]
+    if not ps["on"]:
+        return "nosub"
+    if ps["left"] > 1:
+        return "continue"
+    if ps["fut"]["on"] and ns["on"]:
+        return "activate-future"
+    if ps["auto"] != "none" and ns["on"]:
+        return "renew"
+    if ps["auto"] != "none" and not ps["fut"]["on"]:
+        return "renew-failed"
+    return "expire"
+
+
 def stats(rows):
     c = collections.Counter()
     prev = None
@@ -99,31 +121,43 @@ def stats(rows):
             c["behaviours"] += 1
             continue
         c[r["ev"] + (":ok" if r["ok"] else ":fail")] += 1
-        if r["ev"] == "month" and r["ok"] and prev is not None:
-            ps, ns = prev["subn"], r["subn"]
-            if ps["on"] and ps["left"] > 1:
-                c["month:continue"] += 1
-            elif ps["on"] and ps["left"] == 1:
-                if ps["fut"]["on"] and ns["on"]:
-                    c["month:activate-future"] += 1
-                elif ps["auto"] != "none" and ns["on"]:
-                    c["month:renew"] += 1
-                    if (ns["pi"], ns["pb"]) != (ps["pi"], ps["pb"]):
-                        c["month:renew-onto-other-version"] += 1
-                else:
-                    c["month:expire"] += 1
-        if r["ev"] == "buy" and r["ok"] and prev is not None:
-            ps = prev["subn"]
-            c["buy:new" if not ps["on"] else ("buy:upgrade" if ps["pi"] != r["p"] else "buy:extend")] += 1
-        if r["ev"] == "adv" and r["ok"] and prev is not None:
-            c["adv:replace" if prev["subn"]["fut"]["on"] else "adv:new"] += 1
-        if r["ev"] in ADV and prev is not None and r["sub"]["on"]:
-            for p, vs in r["plans"].items():
-                pv = {v["b"]: v for v in prev["plans"].get(p, [])}
-                for v in vs:
-                    if v["b"] in pv and pv[v["b"]]["latest"] and not v["latest"] and v["del"] <= r["h"]:
-                        c["plan-delete-matured-with-live-sub"] += 1
         if prev is not None:
+            for cn in CONS:
+                if fired(prev, r, cn):
+                    k = month_kind(prev, r, cn)
+                    c["month:" + k] += 1
+                    ps, ns = prev["cs"][cn]["subn"], r["cs"][cn]["subn"]
+                    if k == "renew" and (ns["pi"], ns["pb"]) != (ps["pi"], ps["pb"]):
+                        c["month:renew-onto-other-version"] += 1
+                    if k == "renew-failed":
+                        # would the renewal have moved to another plan version, and does somebody else hold the old one?
+                        others = [o for o in CONS if o != cn and prev["cs"][o]["subn"]["on"]
+                                  and (prev["cs"][o]["subn"]["pi"], prev["cs"][o]["subn"]["pb"]) == (ps["pi"], ps["pb"])]
+                        latest = [v["b"] for v in r["plans"].get(ps["auto"], []) if v["latest"]]
+                        if (ps["auto"] != ps["pi"] or (latest and latest[0] != ps["pb"])):
+                            c["month:renew-failed-onto-other-version"] += 1
+                            if others:
+                                c["month:renew-failed-other-version-shared"] += 1
+            if r["ev"] == "buy" and r["ok"]:
+                ps = prev["cs"][r["c"]]["subn"]
+                kind = "new" if not ps["on"] else ("upgrade" if ps["pi"] != r["p"] else "extend")
+                c["buy:" + kind] += 1
+                if kind == "new":
+                    o = [x for x in CONS if x != r["c"]][0]
+                    if prev["cs"][o]["subn"]["on"] and (prev["cs"][o]["subn"]["pi"], prev["cs"][o]["subn"]["pb"]) == (
+                            r["cs"][r["c"]]["subn"]["pi"], r["cs"][r["c"]]["subn"]["pb"]):
+                        c["buy:shares-plan-version"] += 1
+            if r["ev"] == "adv" and r["ok"]:
+                pc = prev["cs"][r["c"]]
+                c["adv:replace" if pc["subn"]["fut"]["on"] else "adv:new"] += 1
+                if pc["subn"]["blk"] > prev["h"]:
+                    c["adv:after-upgrade-same-epoch"] += 1
+            if r["ev"] in ADV and any(r["cs"][cn]["sub"]["on"] for cn in CONS):
+                for p, vs in r["plans"].items():
+                    pv = {v["b"]: v for v in prev["plans"].get(p, [])}
+                    for v in vs:
+                        if v["b"] in pv and pv[v["b"]]["latest"] and not v["latest"] and v["del"] <= r["h"]:
+                            c["plan-delete-matured-with-live-sub"] += 1
             np_ = sum(len(v) for v in prev["plans"].values())
             nn = sum(len(v) for v in r["plans"].values())
             if r["ev"] in ADV and nn < np_:
@@ -132,16 +166,17 @@ def stats(rows):
     return c
 
 
-def plan_ref_origin(chunk, off):
-    """event that last changed the live subscription's plan reference before line `off` of the chunk"""
+def plan_ref_origin(chunk, off, cn):
+    """event that last changed consumer cn's live plan reference before line `off` of the chunk"""
     origin = "none"
     last = None
     for i, r in enumerate(chunk[:off]):
-        cur = (r["sub"]["pi"], r["sub"]["pb"]) if r["sub"]["on"] else None
+        sub = r["cs"][cn]["sub"]
+        cur = (sub["pi"], sub["pb"]) if sub["on"] else None
         if cur != last and cur is not None:
             origin = r["ev"]
             if r["ev"] == "month" and i > 0:
-                ps = chunk[i - 1]["subn"]
+                ps = chunk[i - 1]["cs"][cn]["subn"]
                 origin = "month-activate-future" if ps["fut"]["on"] else ("month-renew" if ps["auto"] != "none" else "month")
             elif r["ev"] in ("block", "epoch", "stale") and i > 0:
                 origin = "upgrade-matured"
